@@ -10,11 +10,17 @@
   `ফেরত` from any depth of blocks, conditionals and loops leaves none of them visible to the caller; the
   caller's statement position is untouched because expression evaluation never moves it (the model
   passes it by value).  Calling a non-function or a name with no declaration is a located error.
-  That the caller's *own* scopes below the cut are unchanged by the body follows from the scoping
-  theorems of C04 applied along the body's run (refinement, DESIGN.md §6) and is decided meanwhile
-  by the C05 check (return position × call site matrix against the structured semantics).
+  Whole calls (refinement, `Lemmas/FrameInv.lean`): `body_is_structured` — running a function body
+  `{ b } ফেরত re;` of a structured program is the structured meaning `sBody`: the block, then the operand of
+  the first `ফেরত` reached (from any depth of blocks, chains and loops) or of the closing `ফেরত re;`;
+  `call_leaves_caller_frames` — ANY expression evaluation, whatever user functions it calls and to whatever
+  recursion depth (direct or mutual), returns with the caller's loop stack, pending-conditional flags and scope
+  depth exactly as they were.  That the caller's scopes below the cut keep their *contents* is the C04 lemma
+  `assign_other_scopes_unchanged` applied per statement; its lifting along a whole body is not stated as one
+  theorem and is decided by the C05 check (return position × call site matrix).
 -/
 import Pakhi.Lemmas.Control
+import Pakhi.Lemmas.FrameInv
 
 namespace Pakhi
 namespace C05
@@ -108,6 +114,21 @@ theorem definition_skips_body (prog : List Stmt) (ftok : Token) (vm hm : Meta) (
     execFuncDef prog (.expr (.call (.var ftok vm) args hm) hm :: (body.flatten ++ (.ret re rm :: after))) s =
       .ok (after, { s with scopes := assocSet sc ftok.lexeme (.func (body.flatten ++ (.ret re rm :: after)).length params) :: r }) := by
   simp [execFuncDef, hp, hs, declareVar, skipBlock_whole_block body _ hw]
+
+
+/-- **the body of a call is its structured meaning** -/
+theorem body_is_structured {prog : List Stmt} (h : Structured prog) (b : SBlock) (re : Expr) (rm : Meta) (k : List Stmt) (hw : b.WF)
+    (hc : b.Closed false) (hsuf : IsSuffixOf (b.flatten ++ (.ret re rm :: k)) prog) (s : St) (hs : StOK (GoodFn prog) prog s)
+    (F : Nat) (r : Res (Val × St)) (hrun : callLoop prog F (b.flatten ++ (.ret re rm :: k)) s = r) (hr : r ≠ .fuel) :
+    sBody prog F b re rm k s = r :=
+  call_refines h b re rm k hw hc hsuf s hs F r hrun hr
+
+/-- **a call unwinds cleanly**: evaluating any expression of a structured program — with calls, recursion, returns from
+    inside loops and conditionals of the callee — leaves the caller's loops, pending conditionals and scope depth unchanged -/
+theorem call_leaves_caller_frames {prog : List Stmt} (h : Structured prog) (f : Nat) (cur : List Stmt) (e : Expr) (s : St) (v : Val) (s' : St)
+    (hsuf : IsSuffixOf cur prog) (hw : e.wf = true) (hs : StOK (GoodFn prog) prog s) (he : eval prog f cur e s = .ok (v, s')) :
+    s'.loops = s.loops ∧ s'.flags = s.flags ∧ s'.scopes.length = s.scopes.length :=
+  eval_frame h f cur e s v s' hsuf hw hs he
 
 end C05
 end Pakhi
